@@ -783,6 +783,76 @@ pub fn op_strategy() -> BoxedStrategy<SOp> {
     .boxed()
 }
 
+/// Contents of one length that differ in a single place (first byte after the tag, middle, last
+/// byte), or only in length (one byte shorter / longer, i.e. one a prefix of the other), all alive
+/// together: none may be conflated with another, each repeated content must share its buffer.
+#[derive(Clone, Debug, Serialize, Deserialize)]
+pub struct SizeCase {
+    pub len: usize,
+}
+
+fn size_body(case: &SizeCase, ctx: &mut CaseCtx) -> PropResult {
+    let tag = CASE_COUNTER.fetch_add(1, Ordering::Relaxed);
+    let n = case.len.max(40);
+    let mut base = format!("c18-size-{tag:012}-").into_bytes();
+    let head = base.len();
+    let mut x = 0x9E37_79B9_7F4A_7C15u64 ^ tag;
+    while base.len() < n {
+        x ^= x << 13;
+        x ^= x >> 7;
+        x ^= x << 17;
+        base.push((x >> 24) as u8);
+    }
+    let variant = |k: usize| -> Vec<u8> {
+        let mut v = base.clone();
+        match k {
+            0 => {}
+            1 => v[head] ^= 1,
+            2 => v[n / 2] ^= 0x80,
+            3 => v[n - 1] ^= 1,
+            4 => v.truncate(n - 1),
+            5 => v.push(b't'),
+            6 => v[n - 2] ^= 4,
+            _ => {
+                // differs in the last whole 64-byte block only
+                let at = (n - 1) / 64 * 64;
+                v[at.min(n - 1)] ^= 2;
+            }
+        }
+        v
+    };
+    let res = crate::engine::catch(|| -> Result<(), Fail> {
+        let contents: Vec<Vec<u8>> = (0..8).map(variant).collect();
+        let first: Vec<SharedString> = contents.iter().map(|c| SharedString::new(c.clone())).collect();
+        let second: Vec<SharedString> = contents.iter().rev().map(|c| SharedString::new(c.clone())).collect();
+        for (i, h) in first.iter().enumerate() {
+            ensure!(h.data() == contents[i].as_slice(), "c18:sizes:wrong-bytes", "variant {i} of a {n}-byte content exposes other bytes than it was created from (its bytes equal those of variant {:?})", contents.iter().position(|c| c.as_slice() == h.data()));
+            let again = &second[7 - i];
+            ensure!(again.data() == contents[i].as_slice(), "c18:sizes:wrong-bytes", "second handle of variant {i} of a {n}-byte content exposes other bytes");
+            ensure!(again.data().as_ptr() == h.data().as_ptr(), "c18:sizes:not-shared", "two live handles of one {n}-byte content (variant {i}) have different buffers");
+            ensure!(again == h, "c18:sizes:equal-contents-unequal", "two handles of one {n}-byte content compare unequal");
+            for (j, o) in first.iter().enumerate().skip(i + 1) {
+                if contents[i] != contents[j] {
+                    ensure!(h != o, "c18:sizes:distinct-contents-equal", "variants {i} and {j} of a {n}-byte content compare equal");
+                    ensure!(h.data().as_ptr() != o.data().as_ptr(), "c18:sizes:conflated", "variants {i} and {j} of a {n}-byte content share one buffer");
+                }
+            }
+        }
+        drop(first);
+        drop(second);
+        for (i, c) in contents.iter().enumerate() {
+            ensure!(!rbx_types::verif_cache_has(c), "c18:sizes:entry-left-behind", "the intern table still holds variant {i} of a {n}-byte content after every handle was dropped");
+        }
+        Ok(())
+    });
+    ctx.label(if n >= 1 << 20 { "at_least_1_MiB" } else if n >= 1 << 16 { "at_least_64_KiB" } else { "below_64_KiB" });
+    ctx.nontrivial();
+    match res {
+        Err(info) => fail!("c18:sizes:panic", "a SharedString operation panicked: {}", info.msg),
+        Ok(r) => r,
+    }
+}
+
 pub fn run(ctx: &Ctx) -> PropertyReport {
     let mut rep = PropertyReport::new(
         "C18",
@@ -792,6 +862,7 @@ pub fn run(ctx: &Ctx) -> PropertyReport {
          operation boundary). After every step, with all threads parked: each live handle exposes its bytes, equal contents are ==, hash equal and share one buffer; no panic, no \
          stuck thread; at quiescence the table has no entry for the case's contents. Exhaustive DFS over all schedules of all small programs, plus random programs and schedules, \
          plus single-threaded API sequences (new / clone / clone_from / assignment / drop / Vec::clone_from, optionally next to 1000-2600 other live contents) with the same oracles, \
+         plus contents of every length around each power of two up to 4 MiB (64 MiB in the thorough tier) in 8 variants that differ in one byte or one byte of length, all alive together, \
          plus an uncontrolled 16-thread stress run. Non-trivial = a schedule in which a Drop's clean-up half is separated from its release half by another thread's new().",
     );
     rep.assume("data races inside Arc / Mutex are trusted to std; the controlled granularity is the one the property names");
@@ -854,6 +925,21 @@ pub fn run(ctx: &Ctx) -> PropertyReport {
         r.floor("large_contents_with_a_shared_prefix", cases / 20);
         r.floor("more_than_1024_live_contents", cases / 50);
         rep.push(r);
+    }
+    if sub.runs("content-sizes") {
+        rbx_types::verif_set_yield_hook(None);
+        let mut lens: Vec<usize> = vec![40, 63, 64, 65, 127, 128, 129, 1000];
+        let top = ctx.cfg.tier.pick(22u32, 26);
+        for p in 8..=top {
+            for d in [-1i64, 0, 1, 63, 64, 65] {
+                lens.push(((1i64 << p) + d) as usize);
+            }
+        }
+        lens.extend([3 << 10, 3 << 16, 3 << 20, 5 << 20, 1_000_003, 3_000_001]);
+        lens.sort();
+        lens.dedup();
+        let cases: Vec<SizeCase> = lens.into_iter().map(|len| SizeCase { len }).collect();
+        rep.push(ctx.run_list("content-sizes", cases, true, size_body));
     }
     if sub.runs("free-running-stress") {
         rep.push(stress(ctx));
